@@ -189,7 +189,9 @@ func (uconn *UConn) uLoadSession() error {
 			}
 			// We use the session ticket extension for tls 1.2 session resumption
 			uconn.sessionController.initSessionTicketExt(session, hello.sessionTicket)
-			uconn.sessionController.setSessionTicketToUConn()
+			if uconn.sessionController.state == SessionTicketExtInitialized {
+				uconn.sessionController.setSessionTicketToUConn()
+			} // otherwise the spec has no session ticket extension and resumption is skipped
 		} else {
 			uconn.sessionController.initPskExt(session, earlySecret, binderKey, hello.pskIdentities)
 		}
